@@ -102,6 +102,8 @@ def oracle_campaign(chk, fam, cases, label, batch=60):
         hit = False
         for c in b:
             r = oracle_judge(fam, list(c))
+            for _ in range(6 if any(o.startswith("par ") for o in c) else 0):      # threads: a race may need several runs
+                r = r or oracle_judge(fam, list(c))
             if r is None:
                 chk.cov["oracle_hashlib_cases"] = chk.cov.get("oracle_hashlib_cases", 0) + 1
                 continue
